@@ -483,6 +483,13 @@ func (m *objectCacheStorageMiddleware) CompleteMultipartUpload(ctx context.Conte
 	return result, nil
 }
 
+func (m *objectCacheStorageMiddleware) TransitionObjectStorageClass(ctx context.Context, bucketName storage.BucketName, key storage.ObjectKey, targetStorageClass string, opts *storage.TransitionObjectStorageClassOptions) error {
+	// The cached Object carries the storage class, so a transition must invalidate it.
+	err := m.Next.TransitionObjectStorageClass(ctx, bucketName, key, targetStorageClass, opts)
+	m.invalidateObjectCaches(ctx, bucketName, key)
+	return err
+}
+
 func (m *objectCacheStorageMiddleware) invalidateObjectCaches(ctx context.Context, bucketName storage.BucketName, key storage.ObjectKey) {
 	objKey := objectCacheKey(bucketName, key)
 	if err := m.cache.Remove(objKey); err != nil {
